@@ -9,7 +9,8 @@ against /repo itself.)"""
 import json, os, re, shutil, subprocess, sys, time
 
 VERIF = os.path.dirname(os.path.dirname(os.path.abspath(__file__)))
-REPO = "/repo"
+SRC = os.environ.get("SEED_VERIF_SRC", VERIF)    # a frozen copy of /verif may be given, so that /verif can be edited meanwhile
+REPO = os.environ.get("SEED_REPO_SRC", "/repo")
 LABROOT = os.environ.get("SEEDLAB", "/var/tmp/seedlab")
 GOENV = dict(os.environ, GOFLAGS="-mod=mod", GOPROXY="off", GOSUMDB="off", GOTOOLCHAIN="local")
 
@@ -26,11 +27,12 @@ def evaluate(seed, patch, checks, outdir):
     try:
         sh(["rsync", "-a", "--exclude", ".git", REPO + "/", lab + "/repo/"])
         sh(["git", "init", "-q"], cwd=lab + "/repo")
-        sh(["rsync", "-a", "--exclude", ".git", "--exclude", "replays", "--exclude", "seeded", VERIF + "/", lab + "/verif/"])
-        rc, out = sh(["git", "apply", patch], cwd=lab + "/repo")
-        if rc != 0:
-            print("patch does not apply:", out)
-            return None
+        sh(["rsync", "-a", "--exclude", ".git", "--exclude", "replays", "--exclude", "seeded", SRC + "/", lab + "/verif/"])
+        if patch:
+            rc, out = sh(["git", "apply", patch], cwd=lab + "/repo")
+            if rc != 0:
+                print("patch does not apply:", out)
+                return None
         rc, out = sh(["go", "mod", "edit", "-replace", "github.com/rigochain/rigo-go=" + lab + "/repo"], cwd=lab + "/verif/harness", env=GOENV)
         if rc != 0:
             print("go mod edit failed:", out)
@@ -51,7 +53,10 @@ def evaluate(seed, patch, checks, outdir):
                 json.dump(res, f, indent=1)
         return res
     finally:
-        shutil.rmtree(lab, ignore_errors=True)
+        if os.environ.get("SEED_KEEP"):
+            print("lab kept at", lab)
+        else:
+            shutil.rmtree(lab, ignore_errors=True)
 
 
 def main():
@@ -61,6 +66,10 @@ def main():
         i = args.index("--checks")
         checks = args[i + 1].split(",")
         args = args[:i] + args[i + 2:]
+    if "--nopatch" in args:   # the unchanged tree under another VERIF_SEED: looks for false alarms and for new findings
+        name = args[args.index("--name") + 1] if "--name" in args else "sweep"
+        evaluate(name, None, checks, None)
+        return
     if "--patch" in args:
         i = args.index("--patch")
         patch = args[i + 1]
